@@ -142,6 +142,170 @@ def validate_ymd(ctx):
     ctx.count("pgen_ymd_scripts", len(scripts))
 
 
+# ------------------------------------------------------------------ parserinfo / small parser methods
+WORDS = ["h", "m", "s", "hour", "hours", "minute", "min", "sec", "second", "am", "pm", "a", "p", "AM", "Pm", "of", "at", "on",
+         "and", "ad", "st", "nd", "rd", "th", "T", "Z", "z", "UTC", "GMT", "utc", "gmt", "Jan", "jan", "JANUARY", "Sept", "sep",
+         "may", "Mon", "monday", "TUE", "Sun", "BRST", "EST", "MSK", "msk", "EKT", "ZERO", "CET", "ch", "chas", "utra",
+         "vechera", "ot", "goda", "Pn", "yan", "\u212a", "K", "k", "İ", "ǅ", "ß", "ab", "ABCDE", "ABCDEF", "AbC", "ÀB", "",
+         " ", ".", ",", "-", "/", "+", "(", ")", "12", "3"]
+
+
+def _infos():
+    from dateutil.parser import parserinfo
+    out = [(parserinfo(), False), (parserinfo(dayfirst=True), False)]
+    for _, klass in L.custom_infos():
+        out.append((klass(), True))
+    return out
+
+
+def _iw(info, custom):
+    return "%s %d %d" % (L.info_wire(info, custom), info._year, info._century)
+
+
+def _word(rng, info):
+    r = rng.random()
+    if r < 0.5:
+        tbl = rng.choice([info._jump, info._weekdays, info._months, info._hms, info._ampm, info._utczone, info._pertain,
+                          info.TZOFFSET])
+        ks = sorted(tbl)
+        if ks:
+            w = rng.choice(ks)
+            return rng.choice([w, w.upper(), w.capitalize(), w.lower()])
+    return rng.choice(WORDS)
+
+
+def _r(f, show):
+    try:
+        return "ok " + show(f())
+    except Exception as ex:                                         # noqa: BLE001
+        return "ok !" + vlib.exc_kind(ex)
+
+
+def _b(x):
+    return "%d" % bool(x)
+
+
+def _oi(x):
+    return "-" if x is None else "%d" % x
+
+
+def _cmp(ctx, op, reqs, wants):
+    got = ctx.driver(reqs)
+    for req, w, g in zip(reqs, wants, got):
+        ctx.traces += 1
+        if g != w:
+            ctx.mismatch(op, req[-400:], w[:300], g[:300])
+    ctx.count(op.replace(".", "_"), len(reqs))
+
+
+def validate_info(ctx):
+    from dateutil.parser import _parser as P
+    rng = ctx.subrng("pgen.info")
+    n = ctx.budget(250, 1500)
+    reqs, wants = [], []
+    for info, custom in _infos():
+        iw = _iw(info, custom)
+        p = P.parser(info)
+        for _ in range(n):
+            w = _word(rng, info)
+            for fn, show in (("jump", _b), ("weekday", _oi), ("month", _oi), ("hms", _oi), ("ampm", _oi), ("pertain", _b),
+                             ("utczone", _b), ("tzoffset", _oi)):
+                reqs.append("pgen.info %s %s %s" % (iw, fn, L.cps(w)))
+                wants.append(_r(lambda: getattr(info, fn)(w), show))
+        for _ in range(n):
+            # validate
+            year = rng.choice([None, None, rng.randrange(0, 100), rng.randrange(0, 100), rng.randrange(100, 10000), 0, 49, 50,
+                               (info._year - 50) % 100, (info._year + 49) % 100, (info._year + 50) % 100, 10 ** 12])
+            cs = rng.random() < 0.3
+            tzn = rng.choice([None, None, "", _word(rng, info), "Z", "z", "UTC", "GMT", "BRST"])
+            tzo = rng.choice([None, None, 0, 0, 3600, -10800, 1])
+            def run():
+                res = P.parser._result()
+                res.year, res.century_specified, res.tzname, res.tzoffset = year, cs, tzn, tzo
+                info.validate(res)
+                return "%s %s %s" % (_oi(res.year), L.optname(res.tzname), _oi(res.tzoffset))
+            reqs.append("pgen.validate %s %s %d %s %s" % (iw, _oi(year), cs, L.optname(tzn), _oi(tzo)))
+            wants.append(_r(run, str))
+            # _could_be_tzname
+            hour = rng.choice([None, 0, 12, 23]); tzn2 = rng.choice([None, None, None, "X"]); tzo2 = rng.choice([None, None, None, 0, 60])
+            tok = _word(rng, info)
+            reqs.append("pgen.cbtz %s %s %s %s %s" % (iw, _oi(hour), L.optname(tzn2), _oi(tzo2), L.cps(tok)))
+            wants.append(_r(lambda: p._could_be_tzname(hour, tzn2, tzo2, tok), _b))
+            # _find_hms_idx / _parse_hms
+            toks = [rng.choice([_word(rng, info), " ", " ", str(rng.randrange(0, 60)), "h", "m", "s", sorted(info._hms)[0]])
+                    for _ in range(rng.randrange(1, 7))]
+            idx = rng.randrange(0, len(toks))
+            aj = rng.random() < 0.6
+            tw = ";".join(L.cps(t) for t in toks)
+            reqs.append("pgen.findhms %s %d %d %s" % (iw, idx, aj, tw))
+            wants.append(_r(lambda: p._find_hms_idx(idx, toks, info, aj), _oi))
+            try:
+                h = p._find_hms_idx(idx, toks, info, aj)
+            except Exception:                                       # noqa: BLE001
+                h = None
+            for hidx in {h, rng.choice([None] + list(range(len(toks))))}:
+                reqs.append("pgen.parsehms %s %d %s %s" % (iw, idx, _oi(hidx), tw))
+                wants.append(_r(lambda: p._parse_hms(idx, toks, info, hidx), lambda r: "%d %s" % (r[0], _oi(r[1]))))
+    _cmp(ctx, "pgen.info", reqs, wants)
+
+
+def gen_numtok(rng):
+    r = rng.random()
+    if r < 0.35:
+        return str(gen_value(rng))
+    if r < 0.7:
+        a = "".join(rng.choice(DIGITS) for _ in range(rng.randrange(0, 4)))
+        b = "".join(rng.choice(DIGITS) for _ in range(rng.choice([0, 1, 2, 3, 5, 6, 7, 9])))
+        return a + "." + b
+    if r < 0.8:
+        return "".join(rng.choice(DIGITS) for _ in range(rng.choice([26, 27, 28, 29, 30, 31, 40]))) + rng.choice(["", ".5", ".25"])
+    if r < 0.9:
+        return rng.choice(["1.2.3", "..", ".", "", "1..2", "٣.٥", "٣", "²", "1.²", "12.٣٤"])
+    return rng.choice(["inf", "Infinity", "nan", "NaN", "snan", "sNaN", "INF", "abc", "infinit", "nan1", "e", "İnf", "ınf"])
+
+
+def validate_small(ctx):
+    from dateutil.parser import _parser as P
+    import datetime
+    rng = ctx.subrng("pgen.small")
+    n = ctx.budget(1200, 6000)
+    p = P.parser()
+    reqs, wants = [], []
+    for _ in range(n):
+        hour = rng.choice([None, 0, 1, 11, 12, 13, 23, 24, 99]); ampm = rng.choice([None, None, 0, 1]); fz = rng.random() < 0.5
+        reqs.append("pgen.ampm %s %s %d" % (_oi(hour), _oi(ampm), fz))
+        wants.append(_r(lambda: p._ampm_valid(hour, ampm, fz), _b))
+        t = gen_numtok(rng)
+        reqs.append("pgen.todec %s %s" % (L.cps(t), L.classes(t)))
+        def dec():
+            d = p._to_decimal(t).as_tuple()
+            if d.exponent > 0: raise AssertionError("positive exponent")
+            return "%d %d" % (int("".join(map(str, d.digits))), -d.exponent)
+        wants.append(_r(dec, str))
+        reqs.append("pgen.parsems %s %s" % (L.cps(t), L.classes(t)))
+        wants.append(_r(lambda: p._parsems(t), lambda r: "%d %d" % r))
+        hms = rng.choice([0, 1, 2, 2, 3])
+        reqs.append("pgen.assignhms %s %s %d" % (L.cps(t), L.classes(t), hms))
+        def ah():
+            res = P.parser._result()
+            p._assign_hms(res, t, hms)
+            return " ".join(_oi(x) for x in (res.hour, res.minute, res.second, res.microsecond))
+        wants.append(_r(ah, str))
+        num, sc = gen_decimal(rng) if rng.random() < 0.8 else (rng.randrange(0, 10 ** rng.randrange(25, 34)), rng.randrange(0, 4))
+        reqs.append("pgen.minsec %d %d" % (num, sc))
+        wants.append(_r(lambda: p._parse_min_sec(_dec(num, sc)), lambda r: "%d %s" % (r[0], _oi(r[1]))))
+        n0, n1, nm = (rng.choice([None, "EST", "EDT", "", "BST", "GMT"]) for _ in range(3))
+        class Z(datetime.tzinfo):
+            def tzname(self, dt): return n1 if dt.fold else n0
+            def utcoffset(self, dt): return datetime.timedelta(0)
+            def dst(self, dt): return None
+        reqs.append("pgen.assigntz %s %s %s" % (L.optname(n0), L.optname(n1), L.optname(nm)))
+        wants.append(_r(lambda: p._assign_tzname(datetime.datetime(2020, 11, 1, 1, 30, tzinfo=Z()), nm).fold, str))
+    _cmp(ctx, "pgen.small", reqs, wants)
+
+
 def validate(ctx):
     """run every `pgen.*` validation (called from the correspondence of C14)"""
     validate_ymd(ctx)
+    validate_info(ctx)
+    validate_small(ctx)
